@@ -4,6 +4,25 @@ import json, os
 PROPS = [json.loads(l)['id'] for l in open('/verif/properties.jsonl')]
 
 CLAIMED = {
+ 'C18': dict(
+   category='proof',
+   text=('PARTIAL proof on a model regenerated from the source + trace correspondence + dense oracles. The control arithmetic of expmv / eigs / lin_solver is TRANSLATED from '
+         'yastn/krylov/_krylov.py on every run (tools/translate/tr_krylov.py, fail-closed) and the theorems are re-checked against it: for every sequence of numerical '
+         'verdicts the clock of expmv never overshoots, applied sub-steps are positive and fit the remaining interval, rejected passes leave the clock untouched, a happy '
+         'breakdown finishes with exactly the remaining interval, and on exit the applied sub-steps sum to |t| (times the sign factor: t); Krylov sizes stay in '
+         '[1, ncv_max] including the initial one. Hand-written model of expand_krylov_space (Arnoldi and Lanczos, fresh and re-entered): no missing entry is read, the '
+         'projected matrix has exactly the Hessenberg / tridiagonal pattern of m = (len V if happy else len V - 1) columns, the entry expmv pops exists, a rejected pass '
+         'restores the entry set; eigs / lin_solver keep m vectors (all on a breakdown) and build problems of matching shape. Over an arbitrary commutative ring: with an '
+         'invariant Krylov space every eigenpair of the projected matrix lifts to an eigenpair of the map; otherwise the defect is exactly (y.e) r. Every pass of real '
+         'expmv runs (observed with sys.settrace, no change to the repository) is replayed through the Coq controller in exact rational arithmetic; expand_krylov_space, '
+         'eigs and lin_solver bookkeeping is compared with the model. NOT proved: floating-point orthogonality, expm of the projected matrix, the Niesen-Wright error '
+         'estimate, variational bounds, pinv -- expmv / eigs / lin_solver are compared with scipy expm, numpy eigh / eig / solve on the dense map for 6 symmetries, '
+         'Hermitian and not, real / imaginary / complex t over 1e-9..400/|F|, t = 0, ncv 1..40, tolerances, normalisation, zero / eigen / near-invariant starts.'),
+   design_ref='DESIGN.md section 6 C18',
+   note=('Trusted: Coq kernel, no axioms; translator tr_krylov.py + pyexpr.py (its skeleton checks: binding sites of t_now / t_out / tau / sgn, order of the controller stages, '
+         'shape of the residual computation in lin_solver); the order in which a pass applies the generated arithmetic is hand-written (ExpmvCtl.pass) and tied by the trace '
+         'correspondence with tolerance 1e-13 |t| (floats vs exact rationals); complex t is covered by the oracles only (the model clock is real).'),
+   technique='Coq proof over a translated controller (invariants by induction over passes; ring-generic Ritz theorem) + exact-rational trace replay + dense scipy/numpy oracles'),
  'C08': dict(
    category='proof',
    text=('PARTIAL proof + trace correspondence + validated premises. Proved in Coq for every chain length and every sequence of gauge moves: the gauge state machine '
